@@ -223,7 +223,7 @@ Lemma flat_map_single : forall {A B} (f : A -> B) l, flat_map (fun x => [f x]) l
 Proof. induction l as [|x r IH]; [reflexivity|]. cbn. now rewrite IH. Qed.
 
 Lemma headings_msg : forall k m,
-  headings k (msg_blocks m) = if Nat.eqb 4 k then [m_name m] else [].
+  headings k (msg_blocks m) = if Nat.eqb 4 k then [esc_heading (m_name m)] else [].
 Proof.
   intros k m. unfold msg_blocks. rewrite !headings_app, headings_desc.
   assert (Hs : headings k (if m_static m then [] else [Para (dec_hex_line "Message ID" (m_id m)); LF]) = [])
@@ -235,19 +235,20 @@ Qed.
 
 Lemma headings_nif : forall k x,
   headings k (nif_blocks x) =
-  (if Nat.eqb 3 k then [n_name x] else []) ++ (if Nat.eqb 4 k then map m_name (n_msgs x) else []).
+  (if Nat.eqb 3 k then [esc_heading (n_name x)] else [])
+  ++ (if Nat.eqb 4 k then map (fun m => esc_heading (m_name m)) (n_msgs x) else []).
 Proof.
   intros k x. unfold nif_blocks. rewrite !headings_app, headings_desc, headings_flat_map.
-  rewrite (flat_map_ext _ (fun m => if Nat.eqb 4 k then [m_name m] else [])) by (intro; apply headings_msg).
+  rewrite (flat_map_ext _ (fun m => if Nat.eqb 4 k then [esc_heading (m_name m)] else [])) by (intro; apply headings_msg).
   cbn -[Nat.eqb]. destruct (Nat.eqb 3 k), (Nat.eqb 4 k); cbn;
     rewrite ?flat_map_nil, ?flat_map_single; reflexivity.
 Qed.
 
 Lemma headings_bus : forall k b,
   headings k (bus_blocks b) =
-  (if Nat.eqb 2 k then [b_name b] else [])
-  ++ flat_map (fun x => (if Nat.eqb 3 k then [n_name x] else [])
-                        ++ (if Nat.eqb 4 k then map m_name (n_msgs x) else [])) (b_nifs b).
+  (if Nat.eqb 2 k then [esc_heading (b_name b)] else [])
+  ++ flat_map (fun x => (if Nat.eqb 3 k then [esc_heading (n_name x)] else [])
+                        ++ (if Nat.eqb 4 k then map (fun m => esc_heading (m_name m)) (n_msgs x) else [])) (b_nifs b).
 Proof.
   intros k b. unfold bus_blocks. rewrite !headings_app, headings_desc, headings_flat_map.
   rewrite (flat_map_ext _ _ (fun x => headings_nif k x)).
@@ -277,7 +278,7 @@ Lemma headings_toc : forall k n, headings k (toc_blocks n) = [].
 Proof. intros. apply headings_nonH, toc_nonH. Qed.
 
 Lemma headings_enum : forall k e,
-  headings k (enum_blocks e) = if Nat.eqb 4 k then [se_name e] else [].
+  headings k (enum_blocks e) = if Nat.eqb 4 k then [esc_heading (se_name e)] else [].
 Proof.
   intros. unfold enum_blocks. rewrite !headings_app, headings_desc. cbn -[Nat.eqb].
   destruct (Nat.eqb 4 k); reflexivity.
@@ -288,7 +289,7 @@ Definition appendix_titles : list string := ["Signal Types"; "Signal Units"; "Si
 Lemma headings_appendix : forall k n,
   headings k (appendix_blocks n) =
   (if Nat.eqb 2 k then appendix_titles else [])
-  ++ (if Nat.eqb 4 k then map se_name (enums_listed n) else []).
+  ++ (if Nat.eqb 4 k then map (fun e => esc_heading (se_name e)) (enums_listed n) else []).
 Proof.
   intros. unfold appendix_blocks. rewrite headings_app, headings_flat_map.
   rewrite (flat_map_ext _ _ (fun e => headings_enum k e)).
@@ -296,7 +297,7 @@ Proof.
 Qed.
 
 Lemma headings_preamble : forall k n,
-  headings k (preamble_blocks n) = if Nat.eqb 1 k then [nt_name n] else [].
+  headings k (preamble_blocks n) = if Nat.eqb 1 k then [esc_heading (nt_name n)] else [].
 Proof.
   intros. unfold preamble_blocks. rewrite headings_app, headings_desc. cbn -[Nat.eqb].
   destruct (Nat.eqb 1 k); reflexivity.
@@ -304,13 +305,13 @@ Qed.
 
 Lemma headings_blocks : forall k n,
   headings k (blocks n) =
-  (if Nat.eqb 1 k then [nt_name n] else [])
-  ++ flat_map (fun b => (if Nat.eqb 2 k then [b_name b] else [])
-        ++ flat_map (fun x => (if Nat.eqb 3 k then [n_name x] else [])
-                              ++ (if Nat.eqb 4 k then map m_name (n_msgs x) else [])) (b_nifs b))
+  (if Nat.eqb 1 k then [esc_heading (nt_name n)] else [])
+  ++ flat_map (fun b => (if Nat.eqb 2 k then [esc_heading (b_name b)] else [])
+        ++ flat_map (fun x => (if Nat.eqb 3 k then [esc_heading (n_name x)] else [])
+                              ++ (if Nat.eqb 4 k then map (fun m => esc_heading (m_name m)) (n_msgs x) else [])) (b_nifs b))
        (nt_buses n)
   ++ (if Nat.eqb 2 k then appendix_titles else [])
-  ++ (if Nat.eqb 4 k then map se_name (enums_listed n) else []).
+  ++ (if Nat.eqb 4 k then map (fun e => esc_heading (se_name e)) (enums_listed n) else []).
 Proof.
   intros. unfold blocks. rewrite !headings_app, headings_preamble, headings_toc, headings_flat_map,
     headings_appendix.
@@ -328,19 +329,20 @@ Lemma flat_map_flat_map' : forall {A B C} (f : A -> list B) (g : B -> list C) l,
 Proof. induction l as [|x r IH]; [reflexivity|]. cbn. now rewrite flat_map_app, IH. Qed.
 
 Lemma md_sections_lemma : forall n,
-  headings 1 (blocks n) = [nt_name n]
-  /\ headings 2 (blocks n) = map b_name (nt_buses n) ++ appendix_titles
-  /\ headings 3 (blocks n) = map n_name (flat_map b_nifs (nt_buses n))
-  /\ headings 4 (blocks n) = map m_name (msgs_of_net n) ++ map se_name (enums_listed n).
+  headings 1 (blocks n) = [esc_heading (nt_name n)]
+  /\ headings 2 (blocks n) = map (fun b => esc_heading (b_name b)) (nt_buses n) ++ appendix_titles
+  /\ headings 3 (blocks n) = map (fun x => esc_heading (n_name x)) (flat_map b_nifs (nt_buses n))
+  /\ headings 4 (blocks n) = map (fun m => esc_heading (m_name m)) (msgs_of_net n)
+                             ++ map (fun e => esc_heading (se_name e)) (enums_listed n).
 Proof.
   intro n. rewrite !headings_blocks. cbn [Nat.eqb app]. repeat split.
   - rewrite app_nil_r. f_equal. apply flat_map_all_nil. intro b. apply flat_map_nil.
   - rewrite app_nil_r. f_equal. rewrite <- flat_map_single. apply flat_map_ext. intro b.
     now rewrite flat_map_nil.
-  - rewrite app_nil_r. rewrite <- (flat_map_map_flat b_nifs n_name). apply flat_map_ext. intro b.
+  - rewrite app_nil_r. rewrite <- (flat_map_map_flat b_nifs (fun x => esc_heading (n_name x))). apply flat_map_ext. intro b.
     apply flat_map_single.
   - f_equal. unfold msgs_of_net.
-    rewrite <- (flat_map_map_flat n_msgs m_name). now rewrite flat_map_flat_map'.
+    rewrite <- (flat_map_map_flat n_msgs (fun m => esc_heading (m_name m))). now rewrite flat_map_flat_map'.
 Qed.
 
 (* ------------------------------------------------------------------ signal rows *)
@@ -524,7 +526,7 @@ Lemma md_appendix_exact_lemma : forall n, well_formed n ->
        mk_table type_header (map type_row (types_listed n))
        :: mk_table unit_header (map unit_row (units_listed n))
        :: map (fun e => mk_table value_header (map value_row (se_values e))) (enums_listed n)
-  /\ headings 4 (appendix_blocks n) = map se_name (enums_listed n)
+  /\ headings 4 (appendix_blocks n) = map (fun e => esc_heading (se_name e)) (enums_listed n)
   /\ lists_exactly st_id (types_listed n) (all_types n)
   /\ lists_exactly su_id (units_listed n) (all_units n)
   /\ lists_exactly se_id (enums_listed n) (all_enums n).
